@@ -70,7 +70,7 @@ def floors(tier):
     return {"fixtures": 2500, "fixtures_exhaustive_vectors": 600, "fixtures_last_valid_earlier_bad": 300,
             "subprocess_runs": 30 if tier == "quick" else 100, "stdin_fixtures": 40, "base_uri_fixtures": 40,
             "validator_option_fixtures": 100, "validator_vs_dollar_schema_fixtures": 150, "mode:plain-custom": 500, "mode:plain-default": 300, "mode:pretty": 500, "mode:plain-empty": 300,
-            "exit0": 100, "exit_nonzero": 1000, "fixtures_long_lists": 10, "indexed_error_formats": 100, "blank_stdin_fixtures": 15, "validation_chunks_checked": 2500, "load_diagnostics_checked": 1500}
+            "exit0": 100, "exit_nonzero": 1000, "fixtures_long_lists": 10, "indexed_error_formats": 100, "blank_stdin_fixtures": 15, "self_named_schema_with_local_references": 100, "validation_chunks_checked": 2500, "load_diagnostics_checked": 1500}
 
 
 class Fixture:
@@ -433,9 +433,18 @@ def run(ctx):
             mode = rng.choice(ALL_MODES)
             r = rng.random()
             if r < 0.2:
-                one(ctx, root, rng, n, "valid", vec, mode, validator_opt=rng.choice(
-                    ["Draft3Validator", "Draft4Validator", "jsonschema.Draft6Validator", "jsonschema.validators.Draft7Validator"]),
-                    subprocess_too=(i % 41 == 0))
+                vopt = rng.choice(["Draft3Validator", "Draft4Validator", "jsonschema.Draft6Validator", "jsonschema.validators.Draft7Validator"])
+                obj = None
+                if rng.random() < 0.5:
+                    # a schema that names itself (under the selected draft's identifier keyword) and refers into itself
+                    idkw = "id" if ("Draft3" in vopt or "Draft4" in vopt) else "$id"
+                    obj = {idkw: "http://vf.example/c19/own-%d.json" % (n % 3), "definitions": {"n": {"type": "string"}, "i": {"type": "integer"}},
+                           "properties": {"a": {"$ref": "#/definitions/i"}, "b": {"$ref": "#/definitions/n"}, "c": {"maxLength": 1}},
+                           "required": ["p", "q"]}
+                    if "Draft3" in vopt:
+                        del obj["required"]
+                    ctx.count("self_named_schema_with_local_references")
+                one(ctx, root, rng, n, "valid", vec, mode, validator_opt=vopt, schema_obj=obj, subprocess_too=(i % 41 == 0))
             elif r < 0.30:
                 # an explicit --validator wins over a $schema naming another draft (on schemas the two drafts read differently)
                 dv, ds = rng.sample(impl.DRAFTS, 2)
